@@ -294,6 +294,18 @@ theorem baseBuild_get? {ig extra : List (List String)} {kvs : Kvs} {e : J} {k : 
         · cases h
         · rw [ignoreFields_get? k ig _ e hig h, removeEmptyStanzas_get? _ hk.2.2.1 hk.2.2.2, g3]; rfl
 
+theorem remove2_ok {e e' : J} {f t : List String} (h : remove2 e f t = .ok e') :
+    ∃ e1, remove e f = .ok e1 ∧ remove e1 t = .ok e' := by
+  simp only [remove2] at h
+  cases h1 : remove e f with
+  | error er => rw [h1] at h; cases h
+  | ok e1 => rw [h1] at h; exact ⟨e1, rfl, h⟩
+
+theorem remove2_get? {e e' : J} {f t : List String} {hf ht k : String} (h1 : f.head? = some hf) (h2 : t.head? = some ht)
+    (n1 : hf ≠ k) (n2 : ht ≠ k) (h : remove2 e f t = .ok e') : e'.get? k = e.get? k := by
+  obtain ⟨e1, r1, r2⟩ := remove2_ok h
+  rw [remove_get? t e1 e' ht k h2 n2 r2, remove_get? f e e1 hf k h1 n1 r1]
+
 theorem baseBuild_obj {ig extra : List (List String)} {b e : J} (h : baseBuild ig extra b = .ok e) :
     ∃ kvs, b = .obj kvs := by
   cases b with
@@ -389,20 +401,21 @@ theorem progressClear_get? {k : String} (hk : PayloadKey k) : ∀ (p : ProgressC
     · cases h1
     · cases h1
       rw [removeEmptyStanzas_get? _ hk.2.2.1 hk.2.2.2, filterAnnotations_get? _ _ hk.2.2.1]
-  | .status f :: ls, e, e', hav, h => by
+  | .status f t :: ls, e, e', hav, h => by
     simp only [progressClear] at h
     obtain ⟨e1, h1, h3⟩ := bind_ok h
-    rw [progressClear_get? hk ls e1 e' (fun g hg => hav g (List.mem_cons_of_mem _ hg)) h3]
+    rw [progressClear_get? hk ls e1 e' (fun g hg => hav g (List.mem_cons_of_mem _ (List.mem_cons_of_mem _ hg))) h3]
     simp only [clearLeaf] at h1
     obtain ⟨e0, h0, h2⟩ := bind_ok h1
     clear h1
     obtain ⟨hd, hhd, hne⟩ := hav f List.mem_cons_self
+    obtain ⟨td, thd, tne⟩ := hav t (List.mem_cons_of_mem _ List.mem_cons_self)
     cases hm : metaOK e0 with
     | false => simp [hm, throw, throwThe, MonadExceptOf.throw, bind, Except.bind] at h2
     | true =>
       simp [hm, pure, Except.pure] at h2
       subst h2
-      rw [removeEmptyStanzas_get? _ hk.2.2.1 hk.2.2.2, remove_get? f e e0 hd k hhd hne (liftD_ok h0)]
+      rw [removeEmptyStanzas_get? _ hk.2.2.1 hk.2.2.2, remove2_get? hhd thd hne tne (liftD_ok h0)]
 
 /-- **every payload stanza of the body is in the essence, unchanged.** -/
 theorem essence_get? {cfg : Cfg} {extra : List (List String)} {kvs : Kvs} {e : J} {k : String}
